@@ -56,7 +56,7 @@ def pkt(n: int, tag: str, special: int = 0) -> bytes:
 
 
 # size-field boundary values (the 2-byte big-endian size field, carries, byte boundaries)
-BIG_SIZES = [247, 248, 249, 255, 256, 257, 503, 504, 505, 510, 511, 512, 513, 767, 768, 1016, 1023, 1024, 1272, 1279, 1280, 2047, 2048,
+BIG_SIZES = [2560, 2570, 2816, 3338, 247, 248, 249, 255, 256, 257, 503, 504, 505, 510, 511, 512, 513, 767, 768, 1016, 1023, 1024, 1272, 1279, 1280, 2047, 2048,
              4095, 4096, 16383, 32767, 32768, 65527]
 
 GARBAGE = [b"", b"\x00", b"\x83", b"\x70\x83", b"\x00\x83", b"\x5a\x5a\x01", b"\xff\x70\x83\x00", b"\x83\x83\x83\x83\x83",
@@ -119,6 +119,8 @@ def shards(tier):
             out.append(("all", i, part, 2 if tier != "thorough" else 8))
     for i in range(len(BIG_SIZES)):
         out.append(("big", i, 0))
+    for lo in range(0, 640, 40):
+        out.append(("sizesweep", lo, lo + 40))
     nparts = 8 if tier == "thorough" else 2
     for k in (1, 2, 3):
         for part in range(nparts):
@@ -356,9 +358,34 @@ def run_big(st: Stats, idx: int):
         w.close()
 
 
+def run_sizesweep(st: Stats, lo: int, hi: int):
+    """Every payload size lo..hi-1 (so every value of the low size byte): whole, three single cuts, byte by byte for small ones."""
+    w = World()
+    try:
+        for n in range(lo, hi):
+            stream = pkt(n, f"sw{n}") + pkt(1, "sw-next", 2)
+            name = f"size{n}"
+            case = {"kind": "sizesweep", "stream": name, "size": n}
+            cache = {}
+            L = len(stream)
+            cutsets = [(), (3,), (7,), (8 + n - 1,), (8 + n,), (8 + n + 1,)]
+            if n <= 40:
+                cutsets.append(tuple(range(1, L)))
+            for cuts in cutsets:
+                cuts = tuple(c for c in cuts if 0 < c < L)
+                ok = feed(w, stream, cuts, st, case, cache)
+                st.ev((name, cuts), "agree" if ok else "differ", True)
+    finally:
+        w.close()
+
+
 def run_shard(shard, tier) -> Stats:
     st = Stats()
     kind = shard[0]
+    if kind == "sizesweep":
+        run_sizesweep(st, shard[1], shard[2])
+        st.traces = st.evaluations
+        return st
     if kind == "big":
         run_big(st, shard[1])
         st.traces = st.evaluations
@@ -388,6 +415,9 @@ def replay(case):
             cuts, gap = tuple(range(1, len(info["stream"]))), 0.0007
         out, info, frames = wire_exec(case["packets"], cuts, gap)
         return str(out)[:500]
+    if case.get("kind") == "sizesweep":
+        run_sizesweep(st, case["size"], case["size"] + 1)
+        return sorted(st.viol_counts)
     if case.get("kind") == "big":
         run_big(st, BIG_SIZES.index(case["size"]))
         return sorted(st.viol_counts)
